@@ -26,12 +26,12 @@ NS_KINDS = {
     "var": ("int {n};", True), "var2": ("int {n}, {n}second;", True), "fn": ("void {n}();", False), "cls": ("struct {n} {{ int m{n}; }};", False),
     "enum": ("enum {n} {{ {n}A }};", False), "using": ("using {n} = int;", False), "ns": ("namespace {n} {{ int q{n}; }}", False),
     "tmpl": ("template <typename T> T {n}(T);", False), "attr": ("[[nodiscard]] int {n}();", False), "fwd": ("struct {n};", False),
-    "init": ("int {n} = 3;", True), "fnbody": ("inline int {n}() {{ return 1; }}", False), "usingdecl": ("using std::{n};", False),
+    "init": ("int {n} = 3;", True), "alignas": ("alignas(16) char {n}[64];", True), "fnbody": ("inline int {n}() {{ return 1; }}", False), "usingdecl": ("using std::{n};", False),
 }
 CLS_KINDS = {
     "field": ("int {n};", True), "field2": ("int {n}, {n}second;", True), "method": ("void {n}();", False), "nested": ("struct {n} {{ int m{n}; }};", False),
     "enum": ("enum {n} {{ {n}A }};", False), "using": ("using {n} = int;", False), "ctor": ("K{n}x();", None), "static": ("static int {n};", True),
-    "bitfield": ("int {n} : 3;", True), "methbody": ("int {n}() const {{ return 1; }}", False),
+    "bitfield": ("int {n} : 3;", True), "alignas": ("alignas(8) int {n};", True), "methbody": ("int {n}() const {{ return 1; }}", False),
 }
 ENUM_KINDS = {"e": ("{n},", True), "eval": ("{n} = 1 + 2,", True), "elast": ("{n}", True), "elastval": ("{n} = 4", True), "eattr": ("{n} [[deprecated]],", True)}
 ARRS = ["above", "above2", "block", "blockml", "detached", "trailing", "plain", "plain_between", "none", "bang", "above_barrier", "detached_block", "trailing_block", "plain_trailing", "plain_trailing_block"]
@@ -379,7 +379,7 @@ def run(tier):
         chrun.record(ck, rk, "get_doxygen over all token buffers vs the statement's reference", bound=f"<= {kmax} tokens over {len(K_KINDS)} kinds")
         tw = chrun.run(__name__, "h_pair", [(0, 0)], timeout=60, globs=dict(TWIN=True), pool=pool)
         chrun.record(ck, tw, "hand-over reachability twin", expect="refuted")
-        shards = [(c, k) for c in range(3) for k in range(13)]
+        shards = [(c, k) for c in range(3) for k in range(max(len(NS_KINDS), len(CLS_KINDS), len(ENUM_KINDS)))]
         rp = chrun.run(__name__, "h_pair", shards, timeout=(200 if tier == "quick" else 900), globs=dict(EXCUSE=excuse), pool=pool)
         chrun.record(ck, rp, "hand-over: all ordered pairs of declaration kinds x arrangements, namespace and class context",
                      bound=f"{len(NS_KINDS)}/{len(CLS_KINDS)} kinds x {len(ARRS)} arrangements, squared")
